@@ -106,6 +106,15 @@ func parseDKVURI(uri string) (opID, base string, err error) {
 
 // Create a URL safe encoding to create a path segment. Lexicographic order will
 // be descending such that later checkpoints will appear first in a file list.
+// idFromPathSegment is the inverse of pathSegment.
+func idFromPathSegment(segment string) (id uint64, ok bool) {
+	buf, err := base64.RawURLEncoding.DecodeString(segment)
+	if err != nil || len(buf) != 8 {
+		return 0, false
+	}
+	return math.MaxUint64 - binary.BigEndian.Uint64(buf), true
+}
+
 func pathSegment(id uint64) string {
 	reversed := math.MaxUint64 - id
 	buf := make([]byte, 8)
